@@ -149,6 +149,8 @@ enum Op {
   OP_Q120X2_EXTRACT_B, OP_Q120X2_EXTRACT_C, OP_Q120X2_EXTRACT_CONTIG, OP_Q120X2_SAVE,
   // exported coefficient kernels selected by symbol (ref / avx twins), p0 = nn, p1 = divisor (double bits)
   OP_ZNX_ADD_REF, OP_ZNX_ADD_AVX, OP_ZNX_SUB_REF, OP_ZNX_SUB_AVX, OP_ZNX_NEG_REF, OP_ZNX_NEG_AVX, OP_RNX_DIV_REF, OP_RNX_DIV_AVX,
+  // exported kernels no dispatch site selects: reim4 dot products (p0 = nrows) and the cplx addmul variants (table = cplx addmul, m)
+  OP_R4_1COL_REF, OP_R4_1COL_AVX2, OP_R4_2COLS_REF, OP_R4_2COLS_AVX2, OP_CPLX_ADDMUL_KREF, OP_CPLX_ADDMUL_KSSE, OP_CPLX_ADDMUL_KAVX512,
   // *_simple twins (hidden per-dimension caches)
   OP_REIM_FFT_SIMPLE, OP_REIM_IFFT_SIMPLE, OP_REIM_MUL_SIMPLE, OP_REIM_ADDMUL_SIMPLE, OP_REIM_FROM_ZNX64_SIMPLE,
   OP_REIM_TO_ZNX64_SIMPLE,
